@@ -48,6 +48,9 @@ type c26run struct {
 	dir      string
 	failure  *simrt.Failure
 	rewrote  int
+	strat    int
+	sim      *simrt.Sim
+	exitCode int
 }
 
 var xgoUnformatted = []string{
@@ -73,6 +76,7 @@ var invalidSrc = "package main\n\nfunc {  // %d\n"
 
 func (c26) NewRun(plan *simrt.Source, job *harn.Job) harn.Run {
 	r := &c26run{extra: map[string]int{}}
+	r.strat = plan.Draw(2)
 	n := 1 + plan.Draw(5)
 	modes := []os.FileMode{0644, 0600, 0664, 0640, 0755, 0444}
 	exts := []string{".xgo", ".gop", ".go", ".gox", ".xgo", ".go"}
@@ -214,8 +218,35 @@ func (c26) NewRun(plan *simrt.Source, job *harn.Job) harn.Run {
 	return r
 }
 
-func (r *c26run) Strategy() simrt.Strategy                { return simrt.Strategy{} }
-func (r *c26run) Body(s *simrt.Sim)                        {}
+func (r *c26run) Strategy() simrt.Strategy { return simrt.Strategy{Kind: r.strat, StickyP: 700} }
+
+// Body is simulated goroutine 0: the command is sequential today, but the
+// package is instrumented, so goroutines, locks and channels an edit adds to it
+// are scheduled by the simulator (and a run stays replayable).
+func (r *c26run) Body(s *simrt.Sim) {
+	r.sim = s
+	res := r.runSeq(s.Sched(), true)
+	for k, n := range res.Faults {
+		for i := 0; i < n; i++ {
+			s.Fault(k)
+		}
+	}
+	for _, l := range res.Log {
+		s.Logf("%s", l)
+	}
+	s.Mix(res.SchedHash)
+}
+
+// OnPanic: a goroutine of the simulated command that unwinds with ExitPanic
+// (os.Exit, or the kill injected at a crash point) is the process ending, not a
+// failure.
+func (r *c26run) OnPanic(v interface{}) bool {
+	if e, ok := v.(simos.ExitPanic); ok {
+		r.exitCode = e.Code
+		return true
+	}
+	return false
+}
 func (r *c26run) OnStep(s *simrt.Sim) *simrt.Failure       { return nil }
 func (r *c26run) StateSig() uint64                         { return 0 }
 func (r *c26run) OnQuiesce(s *simrt.Sim, n int) bool       { return false }
@@ -286,13 +317,22 @@ func (r *c26run) invoke() (code int, panicked interface{}) {
 	args := []string{"-t=false", "-n=false", "-mvgo=false", "-smart=false"}
 	args = append(args, r.flags...)
 	args = append(args, r.args...)
+	r.exitCode = 0
+	simos.Revive() // a new process
 	defer func() {
 		if p := recover(); p != nil {
 			if e, ok := p.(simos.ExitPanic); ok {
 				code = e.Code
-				return
+			} else {
+				panicked = p
 			}
-			panicked = p
+		} else if simos.Dead() {
+			code = r.exitCode // another goroutine of the command ended the process
+		}
+		// the process is over only when every goroutine it started has unwound
+		// (after an exit or a kill their file-system calls have no effect any more)
+		for r.sim != nil && r.sim.OthersAlive() && !r.sim.Failed() {
+			simrt.Yield("wait-for-the-command's-goroutines")
 		}
 	}()
 	Cmd.Run(Cmd, args)
@@ -301,7 +341,7 @@ func (r *c26run) invoke() (code int, panicked interface{}) {
 
 var errnos = []syscall.Errno{syscall.ENOSPC, syscall.EIO, syscall.EACCES, syscall.EMFILE, syscall.EPERM}
 
-func (r *c26run) RunSeq(sched *simrt.Source, keepLog bool) *simrt.Result {
+func (r *c26run) runSeq(sched *simrt.Source, keepLog bool) *simrt.Result {
 	res := &simrt.Result{States: map[uint64]struct{}{}, Probes: map[string]int{}, Faults: map[string]int{}}
 	logf := func(format string, a ...interface{}) {
 		if keepLog {
@@ -577,6 +617,7 @@ func (r *c26run) RunSeq(sched *simrt.Source, keepLog bool) *simrt.Result {
 		k := 1 + sched.Draw(refOps)
 		simos.Install(&simos.Hooks{After: func(op *simos.Op) {
 			if op.Seq == k {
+				simos.KillProcess()
 				panic(simos.ExitPanic{Code: 137}) // SIGKILL right after this operation
 			}
 		}})
